@@ -175,12 +175,16 @@ void* cc_dynamic_pool_malloc(size_t size, CC_DynamicPool* pool)
     if (size >= pool->top_page_size) {
         return NULL;
     }
-    uint8_t* page_max = pool->low_ptr + pool->top_page_size;
-    uint8_t* new_high = pool->high_ptr + size;
+    size_t padding = 0;
+    if (!pool->is_packed && pool->alignment_boundary > 1) {
+        size_t rem = size % pool->alignment_boundary;
+        padding = rem ? pool->alignment_boundary - rem : 0;
+    }
+    size_t used = pool->free_ptr - pool->low_ptr;
 
-    if (new_high >= page_max) {
+    if (size + padding > pool->top_page_size - used) {
         size_t next_max = (size_t) (pool->top_page_size * pool->exp_factor);
-        if (pool->is_fixed || size > next_max) {
+        if (pool->is_fixed || size + padding > next_max) {
             return NULL;
         }
         uint8_t*  new_page = pool->mem_alloc(next_max + sizeof(PageInfo));
@@ -201,10 +205,6 @@ void* cc_dynamic_pool_malloc(size_t size, CC_DynamicPool* pool)
     uint8_t* ptr   = pool->free_ptr;
     pool->high_ptr = ptr;
 
-    size_t padding = 0;
-    if (!pool->is_packed) {
-        padding = size % pool->alignment_boundary;
-    }
     pool->free_ptr = ptr + size + padding;
     return ptr;
 }
